@@ -925,7 +925,7 @@ impl<'a> Builder<'a> {
                 let same_shape = a[0] % 8 == 4;
                 let mut items: Vec<V> = vec![xv.clone()];
                 for j in 0..extra {
-                    let sh = if same_shape || a[2] & (1 << j) == 0 { xv.shape.clone() } else { self.small_shape(a[2] + j as u16, (a[2] as usize >> 3) % 3, 1, 3) };
+                    let sh = if same_shape || a[2] & (1 << j) == 0 { xv.shape.clone() } else { self.small_shape(a[2].wrapping_add(j as u16), (a[2] as usize >> 3) % 3, 1, 3) };
                     let c = self.const_typed(xv.dtype, &sh, a[3] as u32 + j as u32);
                     // const_typed maps unsupported dtypes to i64
                     if self.vals[c].dtype != xv.dtype {
